@@ -384,6 +384,77 @@ def check_connect(up_kind, down_kind, counters, viols):
                 pass
 
 
+def check_map_async_start(counters, viols):
+    """a blocking pipeline with map_async whose worker is started explicitly from the user's thread (start() walks up to the
+    sources): the worker belongs to the pipeline's loop -- the shared background loop -- like everything else of the node;
+    on any other loop it would never run.  Real threads; the blocking emit must come back with the result delivered."""
+    import asyncio
+    from streamz import Stream
+
+    async def double(x):
+        await asyncio.sleep(0.001)
+        return 2 * x
+    src = Stream()
+    m = src.map_async(double)
+    got = m.sink_to_list()
+    box = {}
+
+    def user():
+        try:
+            m.start()               # from a thread that is not the loop's (and, the first time, has no loop of its own)
+            src.emit(21)
+            import time as _t
+            t0 = _t.time()
+            while got != [42] and _t.time() - t0 < 6:          # map_async buffers: the emit returns once the job is queued
+                _t.sleep(0.01)
+            box['done'] = True
+        except Exception as ex:     # noqa: BLE001
+            box['exc'] = ex
+    th = threading.Thread(target=user, daemon=True)
+    th.start()
+    th.join(15)
+    counters['map_async_started_from_user_thread'] = counters.get('map_async_started_from_user_thread', 0) + 1
+    if 'exc' in box:
+        viols.append({'key': 'C19:start-from-user-thread-raised:%s@map_async' % type(box['exc']).__name__,
+                      'what': 'map_async.start() / emit() on a blocking pipeline from the user thread raised %r' % (box['exc'],), 'case': {'map_async_start': True}})
+    elif not box.get('done') or got != [42]:
+        viols.append({'key': 'C19:worker-not-on-the-pipeline-loop@map_async',
+                      'what': 'blocking pipeline, map_async.start() called from the user thread: the blocking emit %s and the sink received %s'
+                              % ('returned' if box.get('done') else 'did not return within 8 s', got), 'case': {'map_async_start': True}})
+
+
+def check_foreign_loop_emit(counters, viols):
+    """a blocking pipeline lives on the shared background loop; a blocking emit issued from a coroutine that runs on ANOTHER
+    loop (asyncio.run in the caller's thread) still has the pipeline's callbacks run on the background loop's thread"""
+    import asyncio
+    from streamz import Stream
+    src = Stream()
+    node = src.rate_limit(0)
+    seen = []
+    node.sink(lambda x: seen.append(threading.get_ident()))
+    box = {}
+
+    def user():
+        box['ident'] = threading.get_ident()
+
+        async def main():
+            return src.emit(1)
+        try:
+            box['ret'] = asyncio.run(main())
+        except Exception as ex:         # noqa: BLE001
+            box['exc'] = ex
+    th = threading.Thread(target=user, daemon=True)
+    th.start()
+    th.join(15)
+    counters['blocking_emits_from_a_foreign_loop'] = counters.get('blocking_emits_from_a_foreign_loop', 0) + 1
+    if 'exc' in box:
+        viols.append({'key': 'C19:emit-from-foreign-loop-raised:%s' % type(box['exc']).__name__, 'what': repr(box['exc']), 'case': {'foreign_loop_emit': True}})
+    elif not seen or seen[0] == box.get('ident'):
+        viols.append({'key': 'C19:callback-on-foreign-thread@blocking-pipeline',
+                      'what': 'blocking emit made from a coroutine on another loop: the sink ran on %s (caller thread %s); emit returned %r'
+                              % (seen, box.get('ident'), box.get('ret')), 'case': {'foreign_loop_emit': True}})
+
+
 def _klass(cfg):
     t = cfg[1]
     if t in SOURCES:
@@ -538,6 +609,18 @@ def run_shard(seed, tier, shard, nshards):
         if len(out['samples']) < 3 and cfg[0] != 'absent':
             out['samples'].append({'configuration': {'upstream': cfg[0], 'node': cfg[1], 'asynchronous': cfg[2], 'loop': cfg[3]},
                                    'expected': list(expectation(cfg, None, None))})
+    if shard == 1 % nshards:
+        v = []
+        check_foreign_loop_emit(out['counters'], v)
+        out['evaluations'] += 1
+        out['keys'].append('foreign_loop_emit')
+        out['violations'].extend(v)
+    if shard == 0:
+        v = []
+        check_map_async_start(out['counters'], v)
+        out['evaluations'] += 1
+        out['keys'].append('map_async_start')
+        out['violations'].extend(v)
     pairs = [(a, b) for a in SIDES for b in SIDES]
     for a, b in pairs[shard::nshards]:
         v = []
@@ -582,6 +665,10 @@ def replay(case):
     if 'cfg' in case:
         cfg = tuple(case['cfg'])
         check_config(cfg, {}, v, lambda c: case)
+    elif 'foreign_loop_emit' in case:
+        check_foreign_loop_emit({}, v)
+    elif 'map_async_start' in case:
+        check_map_async_start({}, v)
     elif 'connect' in case:
         check_connect(case['connect'][0], case['connect'][1], {}, v)
     else:
